@@ -318,6 +318,9 @@ func resolveHistoryScenario(r *vrt.DirectReport, tier string) {
 	file := filepath.Join(dir, "backend.yaml")
 	runTypes := []string{"PHYSICS", "ANY"}
 	roles := []string{"r1", "any"}
+	if tier == "thorough" {
+		runTypes = []string{"PHYSICS", "TECHNICAL", "ANY"} // 6 cells, 4096 ordered pairs of patterns
+	}
 	var cells [][2]string
 	for _, rt := range runTypes {
 		for _, ro := range roles {
@@ -325,7 +328,7 @@ func resolveHistoryScenario(r *vrt.DirectReport, tier string) {
 		}
 	}
 	entries := []string{"e1", "sub/e3"}
-	qRunTypes := []string{"PHYSICS", "ANY", "COSMICS"}
+	qRunTypes := append(append([]string{}, runTypes...), "COSMICS")
 	qRoles := []string{"r1", "any", "r9"}
 	mk := func(pat, gen int) tree {
 		t := tree{}
